@@ -387,6 +387,9 @@ def judge_case(ctx, res):
             return
         obs = ev["ret"]
         ctx.bump("observations")
+        from ..framework import held_handles
+        if held_handles(ctx, obs, fam, schema, wit):
+            return
         if meta is None:
             continue
         ctx.count()
